@@ -344,6 +344,8 @@ def check(prog, run):
                             return o_ if mm.group(1).startswith("old") else (n_ if mm.group(1).startswith("new") else None)
                         if re.match(r"^\w+\.default_value == \w+\.default_value$", t):
                             return eq
+                        if re.match(r"^\w+\.default_value != \w+\.default_value$", t):
+                            return not eq
                         if t.startswith("_is_safe_input_type_change(") or t.startswith("_is_safe_output_type_change("):
                             return True
                         return None
